@@ -12,10 +12,10 @@ Theorem multi_latent_inv s c a m r1 r2 lo hi :
   lo <= mu_latent a <= hi -> lo <= mu_latent (arch_of (multi_step s c a m r1 r2)) <= hi.
 Proof.
   intros Hlo Hhi Hm HL. destruct m as [nn|nn|cm]; cbn [multi_step].
-  - assert (0 <= arg nn (choose latent_choices r1)) by (destruct nn; cbn [arg]; [exact Hm|apply latent_choices_nonneg]).
-    unfold arch_of; cbn [fst]. destruct (Z.ltb_spec (mu_latent a + arg nn (choose latent_choices r1)) (mu_max_latent c)); cbn [mu_latent]; lia.
-  - assert (0 <= arg nn (choose latent_choices r1)) by (destruct nn; cbn [arg]; [exact Hm|apply latent_choices_nonneg]).
-    unfold arch_of; cbn [fst]. destruct (Z.ltb_spec (mu_min_latent c) (mu_latent a - arg nn (choose latent_choices r1))); cbn [mu_latent]; lia.
+  - assert (0 <= arg nn (choose latent_choices r2)) by (destruct nn; cbn [arg]; [exact Hm|apply latent_choices_nonneg]).
+    unfold arch_of; cbn [fst]. destruct (Z.ltb_spec (mu_latent a + arg nn (choose latent_choices r2)) (mu_max_latent c)); cbn [mu_latent]; lia.
+  - assert (0 <= arg nn (choose latent_choices r2)) by (destruct nn; cbn [arg]; [exact Hm|apply latent_choices_nonneg]).
+    unfold arch_of; cbn [fst]. destruct (Z.ltb_spec (mu_min_latent c) (mu_latent a - arg nn (choose latent_choices r2))); cbn [mu_latent]; lia.
   - unfold arch_of. destruct (cnn_step _ _ _ _ _ _) as [[a' nm] rt]. exact HL.
 Qed.
 
